@@ -31,18 +31,27 @@ Definition table := list kproc.
 Record fixes := { fx_skip_self : bool;       (* children(): never yield the caller itself *)
                   fx_parents_seen : bool;    (* parents(): stop at the first repeated PID *)
                   fx_parent_reuse : bool;    (* parent(): identity pre-check before the lowest-PID stop *)
-                  fx_parents_nsp : bool }.   (* parents(): an ancestor that vanished mid-walk ends the chain *)
+                  fx_parents_nsp : bool;     (* parents(): an ancestor that vanished mid-walk ends the chain *)
+                  fx_mono : bool }.          (* age tests compare start times since boot (proposed repair
+                                                notes/fixes/C05-compare-start-times-on-one-clock.diff; not in /repo) *)
 Definition as_is : fixes :=
-  {| fx_skip_self := true; fx_parents_seen := true; fx_parent_reuse := true; fx_parents_nsp := true |}.
+  {| fx_skip_self := true; fx_parents_seen := true; fx_parent_reuse := true; fx_parents_nsp := true; fx_mono := false |}.
 Definition before_fixes : fixes :=
-  {| fx_skip_self := false; fx_parents_seen := false; fx_parent_reuse := false; fx_parents_nsp := false |}.
+  {| fx_skip_self := false; fx_parents_seen := false; fx_parent_reuse := false; fx_parents_nsp := false; fx_mono := false |}.
+(* the code as it is plus the proposed repair of the age tests *)
+Definition with_mono : fixes :=
+  {| fx_skip_self := true; fx_parents_seen := true; fx_parent_reuse := true; fx_parents_nsp := true; fx_mono := true |}.
 (* the code between the first three repairs and the fourth *)
 Definition before_nsp_fix : fixes :=
-  {| fx_skip_self := true; fx_parents_seen := true; fx_parent_reuse := true; fx_parents_nsp := false |}.
+  {| fx_skip_self := true; fx_parents_seen := true; fx_parent_reuse := true; fx_parents_nsp := false; fx_mono := false |}.
 
 (* the caller: a Process object created earlier.  [o_ident] = start ticks read by
    _get_ident() when it was created; [o_ctime] = the create_time() cache
-   (self._create_time), filled only if create_time() was called before.
+   (self._create_time), filled only if create_time() was called before.  create_time() is
+   start ticks + boot offset (btime * CLK; _pslinux.BOOT_TIME or boot_time()); the cache is
+   kept here RE-BASED on the boot offset in force during the call that is modelled, i.e.
+   cached value - that offset: it equals [o_ident] unless the boot offset changed between
+   the cached read and the call (see [clock_obj] below).
    _gone/_pid_reused are False (a fresh object; the sticky flags belong to C01). *)
 Record pobj := { o_pid : Z; o_ident : Z; o_ctime : option Z }.
 
@@ -88,9 +97,14 @@ Definition self_ctime (t : table) (o : pobj) : outcome Z :=
      child = Process(pid); if self.create_time() <= child.create_time(): append
    under "except (NoSuchProcess, ZombieProcess): pass" -- every failure here is a
    NoSuchProcess (listed PIDs are in range), so it is swallowed *)
-Definition child_ok (t : table) (gone : list Z) (o : pobj) (q : Z) : bool :=
+(* the caller's side of an age test: self.create_time(), or (repair) the start time since
+   boot kept in the identity *)
+Definition caller_start (fx : fixes) (t : table) (o : pobj) : outcome Z :=
+  if fx_mono fx then Val (o_ident o) else self_ctime t o.
+
+Definition child_ok (fx : fixes) (t : table) (gone : list Z) (o : pobj) (q : Z) : bool :=
   match proc_new t gone q with
-  | Val cs => match self_ctime t o with
+  | Val cs => match caller_start fx t o with
               | Val c => c <=? cs
               | _ => false
               end
@@ -105,7 +119,7 @@ Definition not_self (fx : fixes) (o : pobj) (q : Z) : bool :=
   if fx_skip_self fx then negb (q =? o_pid o) else true.
 
 Definition okkids (fx : fixes) (t : table) (gone : list Z) (o : pobj) (p : Z) : list Z :=
-  filter (fun q => not_self fx o q && child_ok t gone o q) (kids t p).
+  filter (fun q => not_self fx o q && child_ok fx t gone o q) (kids t p).
 
 (* children(recursive=False) *)
 Definition children_direct (fx : fixes) (t : table) (gone : list Z) (o : pobj) : outcome (list Z) :=
@@ -158,7 +172,7 @@ Definition parent (fx : fixes) (t : table) (gone : list Z) (cache : option Z) (o
   if o_pid o =? low then Val None
   else
     do pp <- ppid_call t o;
-    do c <- self_ctime t o;
+    do c <- caller_start fx t o;
     match proc_new t gone pp with
     | Val ps => if ps <=? c then Val (Some (pp, ps)) else Val None
     | Exc NoSuchProcess => Val None
@@ -204,3 +218,31 @@ Definition parents (fx : fixes) (fuel : nat) (t : table) (gone goneb : list Z) (
   : outcome (option (list Z)) :=
   do first <- parent fx t gone cache o;
   parents_loop fx t gone goneb (cache_after t cache) fuel [o_pid o] first [].
+
+(* ------------------------------------------------------------ the clock: /proc/stat btime and
+   the module-level BOOT_TIME cache (both as tick offsets, btime * CLK), and what a history of
+   clock steps, psutil.boot_time() calls and create_time() calls on the caller leaves behind *)
+Record clk := { k_btime : Z; k_cache : option Z }.
+Definition k_eff (k : clk) : Z := match k_cache k with Some b => b | None => k_btime k end.
+Inductive cev :=
+| SetBtime (b : Z)     (* the system clock is stepped: the btime line of /proc/stat changes *)
+| CallBootTime         (* psutil.boot_time(): re-reads btime and refreshes BOOT_TIME *)
+| CallCreateTime.      (* create_time() on the caller (also children()/parent()/parents() of the
+                          code without the repair): reads "BOOT_TIME or boot_time()" unless cached *)
+Definition cstep (ident : Z) (s : clk * option Z) (e : cev) : clk * option Z :=
+  let (k, c) := s in
+  match e with
+  | SetBtime b => ({| k_btime := b; k_cache := k_cache k |}, c)
+  | CallBootTime => ({| k_btime := k_btime k; k_cache := Some (k_btime k) |}, c)
+  | CallCreateTime =>
+      match c with
+      | Some _ => (k, c)
+      | None => ({| k_btime := k_btime k; k_cache := Some (k_eff k) |}, Some (ident + k_eff k))
+      end
+  end.
+Definition run_clock (ident : Z) (k0 : clk) (evs : list cev) : clk * option Z :=
+  fold_left (cstep ident) evs (k0, None).
+(* the caller object as the modelled call sees it after that history *)
+Definition clock_obj (pid ident : Z) (k0 : clk) (evs : list cev) : pobj :=
+  let (k, c) := run_clock ident k0 evs in
+  {| o_pid := pid; o_ident := ident; o_ctime := option_map (fun w => w - k_eff k) c |}.
